@@ -67,6 +67,7 @@ pub struct SlotSpec {
     pub expand: Vec<String>,
     pub retarget: Vec<(String, String)>,
     pub lift_return: Option<String>,
+    pub letlifts: Vec<(String, usize, String)>, // method name, ordinal, variable
     pub tline: usize,
 }
 
@@ -213,7 +214,7 @@ fn run(repo: &str, template: &str, shimdir: &str, logv: &mut Value) -> Result<St
                 cur = Some(SlotSpec { name: name.trim().into(), locator: loc.trim().into(), props: unit_props.clone(), tline, ..Default::default() });
                 in_sig = true;
             }
-            "loop" | "closure" | "hint" | "subst" | "ufcs" | "noufcs" | "expand" => {
+            "loop" | "closure" | "hint" | "subst" | "ufcs" | "noufcs" | "expand" | "letlift" => {
                 let s = cur.as_mut().ok_or_else(|| Undecided(format!("template line {}: '{}' outside slot", tline, kw)))?;
                 in_sig = false;
                 match kw.as_str() {
@@ -243,6 +244,16 @@ fn run(repo: &str, template: &str, shimdir: &str, logv: &mut Value) -> Result<St
                         // hint <where>: text    where := head | tail | loop_start N | loop_end N | before "anchor" | after "anchor"
                         let (w, body) = split_hint(&rest).ok_or_else(|| Undecided(format!("template line {}: bad hint", tline)))?;
                         s.hints.push((w, one_line(&body)));
+                    }
+                    "letlift" => {
+                        // letlift .method#k as name
+                        let ws: Vec<&str> = rest.split_whitespace().collect();
+                        if ws.len() != 3 || ws[1] != "as" || !ws[0].starts_with('.') {
+                            bail!("template line {}: letlift needs `.method#k as name`", tline);
+                        }
+                        let (mn, mk) = ws[0][1..].split_once('#').unwrap_or((&ws[0][1..], "0"));
+                        let mk: usize = mk.parse().map_err(|_| Undecided(format!("template line {}: bad letlift ordinal", tline)))?;
+                        s.letlifts.push((mn.to_string(), mk, ws[2].to_string()));
                     }
                     "subst" => {
                         let p = parse_quoted_pair(&rest).ok_or_else(|| Undecided(format!("template line {}: bad subst", tline)))?;
